@@ -5,7 +5,8 @@
    that a zero-padding decoder is caught (non-vacuity).
 2. TLC exports the boundary cases (values with their required encoding, hostile length
    prefixes) as vectors; the Go harness feeds them and seeded random values to the real
-   util.Write*/util.Read* functions (bytes.Reader and a one-byte-at-a-time reader) and records
+   util.Write*/util.Read* functions (through bytes.Reader, a one-byte-at-a-time reader,
+   bytes.Buffer, bufio.Reader and io.LimitedReader) and records
    outputs, values, bytes consumed, errors, panics, allocation.
 3. TLC re-evaluates Enc/Dec on every recorded line (Codec_Trace.tla).
 """
@@ -57,7 +58,7 @@ def run(ctx):
         json.dump(vecs, fh)
     ctx.log("exported %d vectors (%d hostile)" % (nvec, len(vecs["hvec"])))
 
-    ctx.harness("./c03", "TestTrace", env={"VERIF_N": ctx.pick(24, 400)}, timeout=900)
+    ctx.harness("./c03", "TestTrace", env={"VERIF_N": ctx.pick(16, 400)}, timeout=900)
     st = json.load(open(ctx.path("stats.json")))
     recs = vlib.read_ndjson(ctx.path("trace.ndjson"))
     rejected, matched, tstates = ctx.validate_runs("Codec_Trace", recs, max_rejects=60)
